@@ -254,6 +254,7 @@ pub fn requires_blocking_migration(data_cmd_type: DataCmdType) -> bool {
             | DataCmdType::Evalsha
             | DataCmdType::Expire
             | DataCmdType::Expireat
+            | DataCmdType::Getdel
             | DataCmdType::Hdel
             | DataCmdType::Lpop
             | DataCmdType::Rpop
